@@ -136,7 +136,7 @@ def regen_params(binary, prop):
 # ---------------------------------------------------------------- Coq build
 
 def coq_project():
-    with Lock("coqproject"):
+    with Lock("coqmake"):
         files = []
         for sub in ("Base", "Gen", "Model", "Proofs", "Properties"):
             files += sorted(glob.glob(os.path.join(COQ, sub, "*.v")))
